@@ -586,3 +586,20 @@ func sortedBans(m map[uint32]bool) []uint32 { return mapKeysU32(m) }
 func SortDevices(devs []server.DeviceStats) {
 	sort.Slice(devs, func(i, j int) bool { return bytes.Compare(devs[i].PublicKey[:], devs[j].PublicKey[:]) < 0 })
 }
+
+// Digest is a compact canonical rendering of the model state (used for the
+// distinct-states measure).
+func (m *ServerModel) Digest() string {
+	var sb bytes.Buffer
+	fmt.Fprintf(&sb, "%v/%d/%d/%v|", m.Registered, m.Offset, len(m.Weeks), sortedBans(m.Bans))
+	for _, id := range mapKeysU32(m.Devices) {
+		d := m.Devices[id]
+		fmt.Fprintf(&sb, "%d:", id)
+		for _, slot := range mapKeysU32(d.Slots) {
+			fmt.Fprintf(&sb, "%d=%d,", slot-m.Offset, d.Slots[slot].Value())
+		}
+		sb.WriteByte(';')
+	}
+	fmt.Fprintf(&sb, "|%d/%d", len(m.Servers), len(m.Migrations))
+	return sb.String()
+}
